@@ -78,6 +78,7 @@ API = {
     'PyLong_FromLong': dict(result='new', nullable=True),
     'PyLong_AsLong': dict(result='int', nonnull=[0]),
     'PyTuple_Pack': dict(result='new', nullable=True),
+    'PyTuple_GetSlice': dict(result='new', nullable=True, nonnull=[0]),
     'PyUnicode_Compare': dict(result='int', nonnull=[0, 1]),
     'PyObject_GenericGetAttr': dict(result='new', nullable=True, callout=True),
     'PyObject_GenericSetAttr': dict(result='int', callout=True),
@@ -426,6 +427,22 @@ class CExec:
             if isinstance(base, tuple) and base[0] == 'maybe':
                 base = base[1]
             if isinstance(base, Obj):
+                # (L, field overwrite) the reference the field held so far passes to this frame: it is known to be NULL, or it
+                # was read (saved) since the last call-out and must be released before the function returns
+                key = (base.id, t.get('name'))
+                cur = path.fields.get(key)
+                fresh = path.field_epoch.get(key, -1) >= path.epoch
+                if v is not NULL and not (isinstance(v, tuple) and v[0] == 'int'):
+                    if cur is NULL and fresh:
+                        pass
+                    elif cur is not None and fresh and (isinstance(cur, Obj) or (isinstance(cur, tuple) and cur[0] == 'maybe')):
+                        oo = cur[1] if isinstance(cur, tuple) else cur
+                        if oo.origin != 'immortal':
+                            oo.owned += 1
+                            oo.taken_from_field = True
+                    else:
+                        self.ob('L', False, 'field %s->%s is overwritten although it may hold a reference: it is not known to be NULL '
+                                'since the last call-out and its old value was not saved for release' % (base.label, t.get('name')), path)
                 # storing a reference into a field transfers one owned reference to the object
                 vv = v[1] if isinstance(v, tuple) and v[0] == 'maybe' else v
                 if isinstance(vv, Obj):
@@ -489,6 +506,17 @@ class CExec:
         callout = spec.get('callout', False)
         if spec.get('callout_unless_str') and not self.known_str(path, args[0] if args else None):
             callout = True
+        if callout and name in LOCAL:
+            # (A): a function of this file that calls out keeps using its pointer arguments afterwards (they are "function
+            # arguments" inside it, rule U); the caller must therefore keep them alive itself -- a pointer merely borrowed
+            # from a mutable container or struct field may be released by the code the callee runs
+            for idx, a in enumerate(args):
+                o = obj_of(a)
+                if o is None or o.owned > 0 or not isinstance(o.origin, tuple):
+                    continue
+                kind, cont, ep, mutable = o.origin[:4]
+                self.ob('A', not mutable, 'argument %d of %s: %r is only borrowed from a mutable container or field; %s runs arbitrary '
+                        'code and goes on using its arguments, so the caller has to own a reference' % (idx, name, o, name), path)
         before = path.epoch
         if callout:
             path.epoch += 1
